@@ -8,6 +8,7 @@ import "verif/vf"
 // "no panic, a value or an error, allocation within 4*Max+64KiB" only.  It is not
 // registered as a check of its own: C13 is the union of such enumerations.
 func C13Wire(c *vf.Ctx) {
+	defer relaxGC()()
 	e := newWireEngine(c, true)
 	q := c.Quick()
 	plan := []reasmCfg{
